@@ -46,7 +46,8 @@ Definition dispatch (req : sx) : sx :=
     sx_bool (symtab_ok (gbool a1) (gI a2) (g_rows a3) && names_ok (gB a4) (g_rows a3))
   else if op =? "spec_views" then sx_views (views (gB a1) (g_rows a2))
   else if op =? "spec_by_name" then         (* strtab rows queries *)
-    sx_list (fun q => sx_optviews (by_name_spec (gB a1) (g_rows a2) q)) (g_names a3)
+    let vs := views (gB a1) (g_rows a2) in
+    sx_list (fun q => sx_optviews (by_name_views vs q)) (g_names a3)
   else if op =? "enc_shndx" then SB (encode_shndx (gbool a1) (map g_xrow (gL a2)))
   else if op =? "shndx_ok" then sx_bool (shndx_ok (gI a1) (map g_xrow (gL a2)))
   else if op =? "enc_syminfo" then SB (encode_syminfo (gbool a1) (map g_irow (gL a2)))
